@@ -18,6 +18,7 @@ def params_in(fl, op):
 def run(db, chk):
     parity_rule(db, chk)
     cache_invalidation_rule(db, chk)
+    copy_helper_rule(db, chk)
     impls = [f for f in db.by_crate["gix_pack"] if f.trait_item in ("gix_pack::cache::DecodeEntry::put", "gix_pack::cache::DecodeEntry::get") and f.kind != "promoted"]
     nontrivial = [f for f in impls if len(f.blocks) > 3]
     chk.floor("DecodeEntry impls", len(impls), 8)
@@ -170,3 +171,18 @@ def cache_invalidation_rule(db, chk):
             chk.ob("slot-reuse-invalidates-delta-cache", "try_find_cached_inner snapshot replaced@%d" % ln, ok,
                    "after a refresh the snapshot is replaced but the delta cache (keyed by slot index and offset) is left alone: once a deleted pack's slot is reused, a cached delta of the old pack is returned for an object of the new one",
                    "%s:%d" % (f.file, ln), key="cache-invalidation|try_find_cached_inner")
+
+
+def copy_helper_rule(db, chk):
+    """the caches hand objects back by copying them into a buffer the caller re-uses (set_vec_to_slice): after a successful call the buffer
+    holds exactly `source`.  So no path to a `Some` return avoids emptying the buffer first (clear/truncate(0)) - an early return for an empty
+    source would give the previous object's bytes back for an empty blob or the empty tree."""
+    fs = [f for f in db.by_crate["gix_pack"] if f.kind != "promoted" and re.search(r"cache::set_vec_to_slice$", f.name)]
+    chk.floor("gix_pack::cache::set_vec_to_slice", len(fs), 1)
+    for f in fs:
+        clears = [c for c in f.calls() if c.is_(r"Vec::<T, A>::clear$|Vec<T, A>>::clear$|::clear$|::truncate$")]
+        somes = [bi for bi, si, pl, rv, ln, mc in f.assigns() if pl == [0] and rv[0] == "agg" and rv[3] == "Some"]
+        r = f.reach_from(0, avoid={c.block for c in clears})
+        chk.ob("copy-helper-overwrites-buffer", "set_vec_to_slice", bool(clears) and bool(somes) and not any(b in r for b in somes),
+               "a successful return is reachable without clearing the output buffer: the caller's re-used buffer keeps the previous object's bytes (empty objects read back as the object decoded before)",
+               "%s:%d" % (f.file, f.line), key="copy-helper|set_vec_to_slice")
